@@ -8,12 +8,27 @@ import time
 from . import core
 
 
+_PORT = {"next": 0}
+
+
 def free_port():
-    s = socket.socket()
-    s.bind(('127.0.0.1', 0))
-    p = s.getsockname()[1]
-    s.close()
-    return p
+    """a free loopback port from a range owned by this process (pid-derived), so that two worker processes of one check can
+    never be handed the same port in the window between probing it and the server under test binding it"""
+    import os
+    base = 20000 + (os.getpid() % 1000) * 40
+    for _ in range(40):
+        p = base + _PORT["next"] % 40
+        _PORT["next"] += 1
+        s = socket.socket()
+        s.setsockopt(socket.SOL_SOCKET, socket.SO_REUSEADDR, 1)
+        try:
+            s.bind(('127.0.0.1', p))
+            return p
+        except OSError:
+            continue
+        finally:
+            s.close()
+    raise core.HarnessError("no free port in this process's range")
 
 
 def wait_listening(port, timeout=10.0):
